@@ -148,7 +148,7 @@ impl Part for WirePart {
         "pool_size=1; victim = session state created outside a transaction {SET untracked guc, SET ROLE, SQL PREPARE, named Parse} × server state at exit {idle, in txn, failed txn, COPY IN open (in/outside a block), COPY OUT unread, reply pending, unsynced batch} × exit {finish+stay, Terminate, drop, drop after k bytes of a Query/Parse/Bind/CopyData, malformed Close/Describe/Bind/Parse, Bind/Describe of unknown statement, unknown message type, idle-in-transaction timeout, statement timeout}; then a probe client runs tagged statements; oracle = mock's session state at the probe's first message on a reused backend connection + the probe reads its own rows. Non-trivial = victim left a non-idle server state or session state behind".into()
     }
     fn cases(&self, tier: Tier) -> u64 {
-        tier.pick(600, 15_000)
+        tier.pick(2_400, 30_000)
     }
     fn strategy(&self, _tier: Tier) -> BoxedStrategy<Case> {
         case_strategy()
